@@ -3,6 +3,7 @@ import CssVerif.Lemmas.StrExact
 import CssVerif.Gen.C03Productions
 import CssVerif.Gen.C05Productions
 import CssVerif.Lemmas.SheetCanonPrune
+import CssVerif.Lemmas.SheetCanonBlind
 import CssVerif.Props.C02
 /-!
 # C03 — serialise-then-parse is lossless; serialisation is a fixpoint (content codecs)
@@ -238,6 +239,20 @@ theorem serialise_spelling_invariant (O : Oracle) (M : List Cps) (hO : AtFaithfu
     projSheet O M (parseSheet O M (serialise s₁)) = projSheet O M (parseSheet O M (serialise s₂)) := by
   rw [parse_serialise O M hO s₁ h₁ hs₁ ha₁ ht₁, parse_serialise O M hO s₂ h₂ hs₂ ha₂ ht₂, he]
 
+/-- the acceptance hypothesis is not needed for a sub-parser oracle that does not look at the white space of the gaps
+around selectors / values / media queries nor at the quote style of `@charset` (`GapBlind O`, a property of the oracle
+alone; the real sub-parsers skip S tokens there): acceptance of the source (part of `s.WF O M`) carries over -/
+theorem accepts_serialised (O : Oracle) (M : List Cps) (hB : GapBlind O) (s : SSheet) (h : s.WF O M) :
+    Accepts O (canon s) :=
+  accepts_of_blind O hB M s h
+
+/-- **parse_serialise for gap-blind oracles**: no per-sheet hypothesis beyond well-formedness of the source, backslash-free
+targets and the tokenizer invariant -/
+theorem parse_serialise_blind (O : Oracle) (M : List Cps) (hO : AtFaithful O) (hB : GapBlind O) (s : SSheet)
+    (h : s.WF O M) (hs : HrefSafe s) (ht : TidyL (render s)) :
+    projSheet O M (parseSheet O M (serialise s)) = (prune s).erase :=
+  parse_serialise O M hO s h hs (accepts_of_blind O hB M s h) ht
+
 /-- T3.S3: writing what was written changes nothing (no hypothesis): nothing more is left out, the layout is the same -/
 theorem canon_idem (s : SSheet) : canon (canon s) = canon s := canon_idem_aux s
 
@@ -270,6 +285,7 @@ example : HrefSafe C02.Ex2.sheet := by
 example : Accepts C02.Ex2.O (canon C02.Ex2.sheet) :=
   accepts_of_yes _ (fun _ => rfl) (fun _ _ => rfl) (fun _ => rfl) (fun _ => rfl) _
 example : TidyL (render C02.Ex2.sheet) := by unfold TidyL; decide +kernel
+example : GapBlind C02.Ex2.O := ⟨fun _ _ _ _ _ _ _ => rfl, fun _ _ _ _ => rfl, fun _ _ _ _ _ _ _ => rfl, fun _ _ => rfl⟩
 
 /-- tests (evaluation), not theorems: every rule of the example sheet is written; its serialisation has 8 rules again;
 an empty style rule and an `@media` rule around it are left out -/
